@@ -452,6 +452,24 @@ class ListArr(object):
     def __neg__(self):
         return ListArr([-a for a in self.items], self.dtype_)
 
+    # ---- elementwise boolean algebra of masks
+    def __and__(self, o):
+        return self._zip(o, lambda a, b: sym_and(a, b), bool)
+
+    def __rand__(self, o):
+        return self._zip(o, lambda a, b: sym_and(b, a), bool)
+
+    def __or__(self, o):
+        return self._zip(o, lambda a, b: sym_or(a, b), bool)
+
+    def __ror__(self, o):
+        return self._zip(o, lambda a, b: sym_or(b, a), bool)
+
+    def __invert__(self):
+        if self.dtype_ is None or self.dtype_.kind != "b":
+            raise Unsupported("~ on a non-boolean array")
+        return ListArr([sym_not(a) for a in self.items], bool)
+
     def __pow__(self, o):
         return self._zip(o, lambda a, b: a ** b)
 
@@ -811,6 +829,14 @@ def m_piecewise(interp, x, condlist, funclist):
     from .sym import SymReal, z3real, SymBool, z3bool
     conds = list(interp.iterate(condlist))
     funcs = list(interp.iterate(funclist))
+    if isinstance(x, ListArr):
+        M.trusted("numpy.piecewise on an array: element k of the result is funcs[i] applied to element k where "
+                  "condition i selects it (the functions passed are evaluated per element)")
+        out = []
+        for k, xk in enumerate(x.items):
+            ck = [(c.items[k] if isinstance(c, ListArr) else c) for c in conds]
+            out.append(m_piecewise(interp, xk, ck, funcs))
+        return ListArr(out, "float64")
     st = sym.get_state()
     default = None
     if len(funcs) == len(conds) + 1:
@@ -927,6 +953,16 @@ def _fieldview_setitem(interp, fv, k, v):
     _store_slice(interp, fv.arr, k, v, field=fv.field)
 
 
+def _tsarr_setitem(interp, t, k, v):
+    """whole-record store into a structured array: NumPy assigns between structured dtypes field by POSITION
+    (not by name) and converts the byte order of each field"""
+    if not isinstance(v, TsArr):
+        raise Unsupported("store of %s into a timestamp record array" % type(v).__name__)
+    M.trusted("numpy: assignment between structured arrays copies fields by position, not by name")
+    for dst_name, src_name in zip(t.names, v.names):
+        _store_slice(interp, t, k, FieldView(v, src_name), field=dst_name)
+
+
 def _instantiate_ndarray_subclass(interp, cls, args, kwargs):
     if cls.name == "TimestampArray":
         a = args[0]
@@ -991,6 +1027,7 @@ def install(interp, m):
     m[("isinstance", NdArr)] = lambda interp, v, c: c in (np.ndarray, object)
     m[("setitem", AbsArr)] = _absarr_setitem
     m[("setitem", FieldView)] = _fieldview_setitem
+    m[("setitem", TsArr)] = _tsarr_setitem
     m[("instantiate", np.ndarray)] = _instantiate_ndarray_subclass
     m[("isinstance_cls", "nptdms.timestamp:TimestampArray")] = lambda interp, v: isinstance(v, TsArr)
     m[("setitem", ListArr)] = _listarr_setitem
